@@ -35,6 +35,31 @@ type Fields struct {
 	BadIPSum         bool
 	BadUDPSum        bool
 	Pad              int // link-layer padding after the IP packet
+	TOS              byte
+	ID               uint16
+	Options          []byte // the IP options area (IHL > 5); nil: NOPs; shorter than the area: End-of-list octets follow
+}
+
+// IPOptions: an options area of n octets made of the option types that exist (record route, loose/strict source route,
+// timestamp, router alert, NOP, security) with length octets that fit, that do not fit, and wild ones.
+func IPOptions(rnd func(int) int, n int) []byte {
+	b := make([]byte, 0, n)
+	for len(b) < n {
+		switch rnd(6) {
+		case 0:
+			b = append(b, 1)
+		case 1:
+			b = append(b, 0)
+		default:
+			t := []byte{7, 131, 137, 68, 148, 130, 7, byte(rnd(256))}[rnd(8)]
+			l := []int{3, 4, 7, 11, n - len(b), 236, 255, 0, 1, 2, rnd(256)}[rnd(11)]
+			b = append(b, t, byte(l))
+			for k := 2; k < l && len(b) < n; k++ {
+				b = append(b, byte(rnd(256)))
+			}
+		}
+	}
+	return b[:n]
 }
 
 func Default(src, dst [4]byte, sp, dp int, payload []byte) Fields {
@@ -54,6 +79,8 @@ func Build(f Fields) []byte {
 	}
 	b := make([]byte, hl+8+len(f.Payload)+f.Pad)
 	b[0] = byte(f.Version<<4 | f.IHL&0xf)
+	b[1] = f.TOS
+	b[4], b[5] = byte(f.ID>>8), byte(f.ID)
 	b[2], b[3] = byte(tl>>8), byte(tl)
 	b[6], b[7] = byte(f.FlagsFrag>>8), byte(f.FlagsFrag)
 	b[8] = f.TTL
@@ -62,6 +89,12 @@ func Build(f Fields) []byte {
 	copy(b[16:20], f.Dst[:])
 	for i := 20; i < hl; i++ {
 		b[i] = 1 // NOP
+		if f.Options != nil {
+			b[i] = 0
+			if i-20 < len(f.Options) {
+				b[i] = f.Options[i-20]
+			}
+		}
 	}
 	cs := ^Sum16(b[:hl])
 	if f.BadIPSum {
